@@ -52,10 +52,22 @@ type pendingOp struct {
 	obj      interface{}   // sync object
 	objs     []interface{} // footprint for dependence
 	cond     func() bool   // opAwait / opLock-like enabledness
-	// completion by a partner (passive ops)
-	completed bool
-	result    Value
-	caseIdx   int
+	// a blocking channel operation that found nothing ready is parked: it is completed by the
+	// party that arrives later (or by close), never by re-evaluation
+	parked      bool
+	completed   bool
+	result      Value
+	recvOk      bool
+	caseIdx     int
+	closedPanic bool // a parked sender woken by close
+}
+
+// waiter is a parked goroutine in a channel's FIFO queue.
+type waiter struct {
+	g       *Goroutine
+	p       *pendingOp
+	caseIdx int // -1 for a plain send/recv
+	val     Value
 }
 
 type Goroutine struct {
@@ -74,6 +86,8 @@ type Chan struct {
 	buf    []Value
 	closed bool
 	elemT  types.Type
+	recvq  []*waiter
+	sendq  []*waiter
 }
 
 type sleepEntry struct {
@@ -243,109 +257,17 @@ func dependent(aObjs []interface{}, aGlob bool, bObjs []interface{}, bGlob bool)
 
 // ---- enabledness
 
-func (rt *runtimeState) hasPendingSender(ch *Chan, except *Goroutine) bool {
-	return len(rt.pendingSenders(ch, except)) > 0
-}
-
-type partner struct {
-	g       *Goroutine
-	caseIdx int // -1 for a plain send/recv
-}
-
-func (rt *runtimeState) pendingSenders(ch *Chan, except *Goroutine) []partner {
-	var out []partner
-	for _, g := range rt.gs {
-		if g == except || g.done || g.pending == nil || g.pending.completed {
-			continue
-		}
-		p := g.pending
-		switch p.kind {
-		case opSend:
-			if p.ch == ch {
-				out = append(out, partner{g, -1})
-			}
-		case opSelect:
-			if p.blocking {
-				for i, c := range p.cases {
-					if c.send && c.ch == ch {
-						out = append(out, partner{g, i})
-					}
-				}
-			}
-		}
-	}
-	return out
-}
-
-func (rt *runtimeState) pendingReceivers(ch *Chan, except *Goroutine) []partner {
-	var out []partner
-	for _, g := range rt.gs {
-		if g == except || g.done || g.pending == nil || g.pending.completed {
-			continue
-		}
-		p := g.pending
-		switch p.kind {
-		case opRecv:
-			if p.ch == ch {
-				out = append(out, partner{g, -1})
-			}
-		case opSelect:
-			if p.blocking {
-				for i, c := range p.cases {
-					if !c.send && c.ch == ch {
-						out = append(out, partner{g, i})
-					}
-				}
-			}
-		}
-	}
-	return out
-}
-
-func (rt *runtimeState) recvReady(ch *Chan, self *Goroutine) bool {
-	if ch == nil {
-		return false
-	}
-	return len(ch.buf) > 0 || ch.closed || rt.hasPendingSender(ch, self)
-}
-
-// sendReady: can a send proceed on its own (buffer room, or closed -> panic)?
-func (rt *runtimeState) sendReady(ch *Chan) bool {
-	if ch == nil {
-		return false
-	}
-	return ch.closed || len(ch.buf) < ch.cap
-}
-
 func (rt *runtimeState) enabled(g *Goroutine) bool {
 	p := g.pending
 	if g.done || p == nil {
 		return false
 	}
-	if p.completed {
-		return true
+	if p.parked {
+		return p.completed
 	}
 	switch p.kind {
-	case opStart, opResume, opClose, opUnlock, opAtomic, opGlobal:
-		return true
-	case opSend:
-		return rt.sendReady(p.ch)
-	case opRecv:
-		return rt.recvReady(p.ch, g)
-	case opSelect:
-		if !p.blocking {
-			return true
-		}
-		for _, c := range p.cases {
-			if c.send {
-				if rt.sendReady(c.ch) {
-					return true
-				}
-			} else if rt.recvReady(c.ch, g) {
-				return true
-			}
-		}
-		return false
+	case opStart, opResume, opClose, opUnlock, opAtomic, opGlobal, opSend, opRecv, opSelect:
+		return true // arriving at a channel operation is always possible; it may then park
 	case opLock, opRLock, opWGWait, opCondWake, opAwait, opSleepUntil:
 		return p.cond()
 	case opQuiesce:
@@ -524,7 +446,8 @@ func (fr *frame) gor() *Goroutine {
 	return fr.ex.rt.cur
 }
 
-// ---- channels
+// ---- channels (Go semantics: an arriving party completes a rendezvous with the first parked
+// partner in FIFO order, else uses the buffer, else parks; close wakes every parked party)
 
 func (rt *runtimeState) newChan(n int, elemT types.Type) *Chan {
 	rt.nextChan++
@@ -538,59 +461,96 @@ func (rt *runtimeState) chanLen(ch *Chan) Value {
 	return rt.ex.ctx.ConstS(64, int64(len(ch.buf)))
 }
 
-func (rt *runtimeState) chanSend(fr *frame, ch *Chan, v Value) {
-	g := fr.gor()
-	p := &pendingOp{kind: opSend, ch: ch, val: copyVal(v)}
-	rt.visible(g, p)
-	if p.completed {
-		g.pending = nil
-		return // a receiver took the value
+func firstLive(q *[]*waiter) *waiter {
+	for len(*q) > 0 {
+		w := (*q)[0]
+		if w.p.completed || w.g.done {
+			*q = (*q)[1:]
+			continue
+		}
+		return w
 	}
-	g.pending = nil
-	rt.doSend(ch, p.val)
+	return nil
 }
 
+func (rt *runtimeState) sendReady(ch *Chan) bool {
+	if ch == nil {
+		return false
+	}
+	return ch.closed || firstLive(&ch.recvq) != nil || len(ch.buf) < ch.cap
+}
+
+func (rt *runtimeState) recvReady(ch *Chan) bool {
+	if ch == nil {
+		return false
+	}
+	return len(ch.buf) > 0 || ch.closed || firstLive(&ch.sendq) != nil
+}
+
+// doSend performs a send that sendReady said is possible.
 func (rt *runtimeState) doSend(ch *Chan, v Value) {
 	if ch.closed {
 		rt.ex.goPanic("send on closed channel")
 	}
+	if w := firstLive(&ch.recvq); w != nil {
+		ch.recvq = ch.recvq[1:]
+		w.p.completed, w.p.result, w.p.recvOk, w.p.caseIdx = true, v, true, w.caseIdx
+		return
+	}
 	ch.buf = append(ch.buf, v)
 }
 
-// takeFrom completes a rendezvous with a pending sender and returns its value.
-func (rt *runtimeState) takeFromSender(ch *Chan, self *Goroutine) Value {
-	ps := rt.pendingSenders(ch, self)
-	alts := make([]int, len(ps))
-	for i := range ps {
-		alts[i] = i
-	}
-	k := 0
-	if len(ps) > 1 {
-		k = rt.ex.choose("partner", alts)
-	}
-	s := ps[k]
-	sp := s.g.pending
-	var v Value
-	if s.caseIdx < 0 {
-		v = sp.val
-	} else {
-		v = sp.cases[s.caseIdx].val
-		sp.caseIdx = s.caseIdx
-	}
-	sp.completed = true
-	return v
-}
-
-func (rt *runtimeState) doRecv(ch *Chan, self *Goroutine) (Value, bool) {
+// doRecv performs a receive that recvReady said is possible.
+func (rt *runtimeState) doRecv(ch *Chan) (Value, bool) {
 	if len(ch.buf) > 0 {
 		v := ch.buf[0]
 		ch.buf = append([]Value(nil), ch.buf[1:]...)
+		if w := firstLive(&ch.sendq); w != nil {
+			ch.sendq = ch.sendq[1:]
+			ch.buf = append(ch.buf, w.val)
+			w.p.completed, w.p.caseIdx = true, w.caseIdx
+		}
 		return v, true
 	}
 	if ch.closed {
 		return rt.ex.zero(ch.elemT), false
 	}
-	return rt.takeFromSender(ch, self), true
+	w := firstLive(&ch.sendq)
+	ch.sendq = ch.sendq[1:]
+	w.p.completed, w.p.caseIdx = true, w.caseIdx
+	return w.val, true
+}
+
+// park blocks g on its (already queued) operation until a partner completes it.
+func (rt *runtimeState) park(g *Goroutine, p *pendingOp) {
+	if g.atomic > 0 {
+		unsupp("blocking channel operation inside vAtomic")
+	}
+	p.parked = true
+	g.pending = p
+	rt.reschedule(g)
+	g.pending = nil
+	if !p.completed {
+		panic("engine: parked goroutine resumed without completion")
+	}
+}
+
+func (rt *runtimeState) chanSend(fr *frame, ch *Chan, v Value) {
+	g := fr.gor()
+	p := &pendingOp{kind: opSend, ch: ch}
+	rt.visible(g, p)
+	g.pending = nil
+	if rt.sendReady(ch) {
+		rt.doSend(ch, copyVal(v))
+		return
+	}
+	if ch != nil {
+		ch.sendq = append(ch.sendq, &waiter{g: g, p: p, caseIdx: -1, val: copyVal(v)})
+	}
+	rt.park(g, p)
+	if p.closedPanic {
+		rt.ex.goPanic("send on closed channel")
+	}
 }
 
 func (rt *runtimeState) chanRecv(fr *frame, ch *Chan, commaOk bool) Value {
@@ -600,10 +560,17 @@ func (rt *runtimeState) chanRecv(fr *frame, ch *Chan, commaOk bool) Value {
 	g.pending = nil
 	var v Value
 	var ok bool
-	if p.completed {
-		v, ok = p.result, true
+	if rt.recvReady(ch) {
+		v, ok = rt.doRecv(ch)
 	} else {
-		v, ok = rt.doRecv(ch, g)
+		if ch != nil {
+			ch.recvq = append(ch.recvq, &waiter{g: g, p: p, caseIdx: -1})
+		}
+		rt.park(g, p)
+		v, ok = p.result, p.recvOk
+		if v == nil {
+			v = rt.ex.zero(ch.elemT)
+		}
 	}
 	if commaOk {
 		return Tuple{v, rt.ex.ctx.Bool(ok)}
@@ -621,29 +588,24 @@ func (rt *runtimeState) chanClose(fr *frame, ch *Chan) {
 	if ch.closed {
 		rt.ex.goPanic("close of closed channel")
 	}
-	ch.closed = true
+	rt.closeChan(ch)
 }
 
-// giveToReceiver hands v to a goroutine blocked receiving on ch (used by non-blocking sends).
-func (rt *runtimeState) giveToReceiver(ch *Chan, self *Goroutine, v Value) bool {
-	rs := rt.pendingReceivers(ch, self)
-	if len(rs) == 0 {
-		return false
+// closeChan marks ch closed and wakes every parked party (also used by context cancellation).
+func (rt *runtimeState) closeChan(ch *Chan) {
+	ch.closed = true
+	for _, w := range ch.recvq {
+		if !w.p.completed {
+			w.p.completed, w.p.result, w.p.recvOk, w.p.caseIdx = true, nil, false, w.caseIdx
+		}
 	}
-	alts := make([]int, len(rs))
-	for i := range rs {
-		alts[i] = i
+	ch.recvq = nil
+	for _, w := range ch.sendq {
+		if !w.p.completed {
+			w.p.completed, w.p.closedPanic, w.p.caseIdx = true, true, w.caseIdx
+		}
 	}
-	k := 0
-	if len(rs) > 1 {
-		k = rt.ex.choose("partner", alts)
-	}
-	r := rs[k]
-	rp := r.g.pending
-	rp.completed = true
-	rp.result = v
-	rp.caseIdx = r.caseIdx
-	return true
+	ch.sendq = nil
 }
 
 func (rt *runtimeState) doSelect(fr *frame, instr *ssa.Select) Value {
@@ -662,46 +624,55 @@ func (rt *runtimeState) doSelect(fr *frame, instr *ssa.Select) Value {
 	chosen := -1
 	var recvVal Value
 	recvOk := false
-	if p.completed {
-		chosen = p.caseIdx
-		if !p.cases[chosen].send {
-			recvVal, recvOk = p.result, true
-		}
-	} else {
-		var ready []int
-		for i, c := range p.cases {
-			if c.send {
-				if rt.sendReady(c.ch) || (c.ch != nil && !instr.Blocking && len(rt.pendingReceivers(c.ch, g)) > 0) {
-					ready = append(ready, i)
-				}
-			} else if rt.recvReady(c.ch, g) {
+	var ready []int
+	for i, c := range p.cases {
+		if c.send {
+			if rt.sendReady(c.ch) {
 				ready = append(ready, i)
 			}
+		} else if rt.recvReady(c.ch) {
+			ready = append(ready, i)
 		}
-		if len(ready) > 0 {
-			chosen = ready[0]
-			if len(ready) > 1 {
-				chosen = ex.choose("select", ready)
+	}
+	switch {
+	case len(ready) > 0:
+		chosen = ready[0]
+		if len(ready) > 1 {
+			chosen = ex.choose("select", ready)
+		}
+		c := p.cases[chosen]
+		if c.send {
+			rt.doSend(c.ch, c.val)
+		} else {
+			recvVal, recvOk = rt.doRecv(c.ch)
+		}
+	case instr.Blocking:
+		for i, c := range p.cases {
+			if c.ch == nil {
+				continue
 			}
-			c := p.cases[chosen]
+			w := &waiter{g: g, p: p, caseIdx: i, val: c.val}
 			if c.send {
-				if rt.sendReady(c.ch) {
-					rt.doSend(c.ch, c.val)
-				} else {
-					rt.giveToReceiver(c.ch, g, c.val)
-				}
+				c.ch.sendq = append(c.ch.sendq, w)
 			} else {
-				recvVal, recvOk = rt.doRecv(c.ch, g)
+				c.ch.recvq = append(c.ch.recvq, w)
 			}
-		} else if instr.Blocking {
-			panic("engine: blocking select scheduled with no ready case")
+		}
+		rt.park(g, p)
+		chosen = p.caseIdx
+		if p.cases[chosen].send {
+			if p.closedPanic {
+				ex.goPanic("send on closed channel")
+			}
+		} else {
+			recvVal, recvOk = p.result, p.recvOk
 		}
 	}
 	r := Tuple{ex.ctx.ConstS(64, int64(chosen)), ex.ctx.Bool(recvOk)}
 	for i, st := range instr.States {
 		if st.Dir == types.RecvOnly {
 			var v Value
-			if i == chosen && recvOk {
+			if i == chosen && recvOk && recvVal != nil {
 				v = recvVal
 			} else {
 				v = ex.zero(st.Chan.Type().Underlying().(*types.Chan).Elem())
